@@ -352,6 +352,45 @@ def apply(s, cfg, op):
         s.laser.plasma = p
     elif k == "lp_set":
         cfg["laser"]["profile"][op["attr"]] = op["v"]; setattr(s.laser.laser_profile, op["attr"], op["v"])
+    elif k == "same":
+        # re-assign the object that is already attached (a no-op for the configuration)
+        w = op["what"]
+        if w == "l_profile":
+            s.laser.laser_profile = s.laser.laser_profile
+        elif w == "l_spectrum":
+            s.laser.laser_spectrum = s.laser.laser_spectrum
+        elif w == "l_plasma":
+            s.laser.plasma = s.laser.plasma
+        elif w == "l_integrator":
+            s.laser.integrator = s.laser.integrator
+        elif w == "l_models":
+            s.laser.models = s.laser.models
+        elif w == "b_attenuator":
+            b.attenuator = b.attenuator
+        elif w == "b_plasma":
+            b.plasma = b.plasma
+        elif w == "b_integrator":
+            b.integrator = b.integrator
+        elif w == "b_models":
+            b.models = list(b.models)
+        elif w == "b_element":
+            b.element = b.element
+        elif w == "p_geometry":
+            p.geometry = p.geometry
+        elif w == "p_integrator":
+            p.integrator = p.integrator
+        elif w == "p_electrons":
+            p.electron_distribution = p.electron_distribution
+        elif w == "p_bfield":
+            p.b_field = p.b_field
+        elif w == "p_models":
+            p.models = list(p.models)
+        elif w == "p_composition":
+            p.composition = list(p.composition)
+        elif w == "p_transform":
+            p.transform = p.transform
+        else:
+            raise ValueError(w)
     elif k == "lp_pol":
         cfg["laser"]["profile"]["pol"] = op["v"]; s.laser.laser_profile.set_polarization(Vector3D(*op["v"]))
     elif k == "ls_set":
@@ -380,6 +419,14 @@ def observe(s, probes):
                 out.append(("beam_density%d" % j, np.array([s.beam.density(*pt)])))
             except Exception as e:  # noqa
                 out.append(("beam_density%d" % j, ("exc", type(e).__name__, str(e)[:200])))
+    if getattr(s, "laser", None) is not None:
+        try:
+            geo = s.laser.get_geometry()
+            hs = [float(g.height) for g in geo]
+            out.append(("laser_geometry", np.array([float(len(geo)), float(sum(hs)), float(max([g.radius for g in geo] or [0.0])),
+                                                    float(sum(1 for g in geo if g.parent is s.laser))])))
+        except Exception as e:  # noqa
+            out.append(("laser_geometry", ("exc", type(e).__name__, str(e)[:200])))
     return out
 
 
